@@ -197,8 +197,9 @@ func run(sc scenario) outcome {
 			if p != last {
 				last, lastChange, lastCanary = p, time.Now(), cn
 			} else if time.Since(lastChange) > stallBound {
-				// the canary should have ticked ~2000 times in 2 s; far fewer means the process is not getting CPU
-				if cn-lastCanary < 400 {
+				// the canary ticks ~1900 times in 2 s when the process gets the CPU it asks for (a relay that blocks leaves the
+				// process idle); clearly fewer means the machine is oversubscribed and the pusher may simply not have run
+				if cn-lastCanary < 1200 {
 					out.starved = true
 				} else {
 					out.stalled, out.stallAt = true, int(p)
@@ -213,8 +214,8 @@ func run(sc scenario) outcome {
 	out.handed = int(atomic.LoadInt64(&progress))
 	if out.maxLatency > stallBound && !out.starved {
 		// one hand-off took longer than the bound although the watchdog saw progress in every window: count it as a stall
-		// only if the canary kept running during that hand-off (>= 1 tick per 5 ms), i.e. the process did get CPU
-		if atomic.LoadInt64(&maxLatTicks) < int64(out.maxLatency/(5*time.Millisecond)) {
+		// only if the canary kept running during that hand-off (>= 60 % of its ticks), i.e. the process did get CPU
+		if atomic.LoadInt64(&maxLatTicks) < int64(out.maxLatency/(1700*time.Microsecond)) {
 			out.starved = true
 		} else {
 			out.stalled = true
